@@ -2,6 +2,8 @@ import MwVerif.Lemmas.Tree.Replace
 import MwVerif.Model.Passes
 import MwVerif.Gen.Cleaner
 import MwVerif.Lemmas.Passes.FixParagraphs
+import MwVerif.Lemmas.Passes.FixNesting
+import MwVerif.Gen.Nesting
 /-!
 # C06 — every cleaning pass completes
 
@@ -89,5 +91,29 @@ theorem c06_fix_paragraphs_round (t t' : T) (h : t.fixParaStep = some t') :
 /-- a round does happen on some tree (the premise of the round theorem is satisfiable). -/
 example : (T.node 0 0 [] [.node 1 kSection [] [.node 2 0 [] []], .node 3 kPara [] []]).fixParaStep
     = some (.node 0 0 [] [.node 1 kSection [] [.node 2 0 [] [], .node 3 kPara [] []]]) := by rfl
+
+/-- **C06 (`fix_nesting` reaches its fixed point).**  The loop `while self._fix_nesting(node)` ends, for
+every tree and every class table: a round strictly decreases the number of (node, forbidden visible
+ancestor) pairs among the nodes the pass looks at — the first broken node in document order loses its
+`bad_parent`, nothing before it had a pair, the copies of the path nodes have none, the right-hand part
+keeps its ancestors — so after at most that many rounds `_fix_nesting` finds nothing. -/
+theorem c06_fix_nesting_reaches_fixed_point (c : NCfg) (t : T) :
+    (fixNesting c (t.pairs c []) t).fixNestingStep c = none :=
+  fixNesting_fixed c _ t (Nat.le_refl _)
+
+theorem c06_fix_nesting_round (c : NCfg) (t t' : T) (h : t.fixNestingStep c = some t') :
+    t'.pairs c [] < t.pairs c [] := fixNestingStep_pairs c t t' h
+
+/-- generated tables: the root's class (Article) is in no forbidden list, so `bad_parent` always has a
+parent to be replaced in; and the cleaner's default mode is the modelled one. -/
+theorem c06_root_in_no_forbidden_list :
+    Gen.Nesting.forbidden.all (fun p => p.2 != Gen.Nesting.rootKind) = true := by decide
+
+theorem c06_default_mode_is_loose : Gen.Nesting.loose = true := by decide
+
+/-- a round does happen: a node of kind 7 below an ancestor of kind 5 that is forbidden for it. -/
+example : (T.node 0 0 [] [.node 1 5 [] [.node 2 7 [] []], .node 3 0 [] []]).fixNestingStep
+      ⟨fun k a => k == 7 && a == 5, fun _ => false, fun _ => false⟩
+    = some (.node 0 0 [] [.node 1 5 [] [], .node 2 7 [] [], .node 1 5 [] [], .node 3 0 [] []]) := by rfl
 
 end MwVerif.Tree
